@@ -198,7 +198,7 @@ func (v *Valuation) forget(b *ssa.BasicBlock) {
 // PathQuery is the search.
 type PathQuery struct {
 	Fn        *ssa.Function
-	From      ssa.Instruction // start right after this instruction with an empty valuation (nil: function entry)
+	From      ssa.Instruction                               // start right after this instruction with an empty valuation (nil: function entry)
 	Target    func(in ssa.Instruction, val *Valuation) bool // true: this arrival is a witness
 	Stop      func(in ssa.Instruction) bool                 // paths end here (optional)
 	MaxStates int
